@@ -6,7 +6,7 @@ from ..astutil import dotted, const, params, local_defs, is_self_attr, calls_nam
 from ..dataflow import expand, call_arg
 from ..effects import class_writers, is_empty_ctor, is_const, check_counter
 from ..cfg import build
-from ..siblings import role_table, is_sender_test, hex_format_width, hex_int_of, slice_bounds, eval_int
+from ..siblings import role_table, is_sender_test, hex_format_width, hex_int_of, slice_bounds, eval_int, local_int_env
 from ..selftest import Mutant, Rewrite
 
 EXPLANATION = ("(R1) _decrypt_record decrypts only past a nonce == counter test whose unequal edge raises, counter +1 once; "
@@ -34,7 +34,7 @@ def r1(tree, rep):
         src = hex_int_of(v)
         sb = slice_bounds(src) if src is not None else None
         return bool(sb and isinstance(sb[0], ast.Name) and sb[0].id in params(fn) and sb[1] is None)
-    nonce_ok = cmp_atom(_is_record_nonce, lambda e: is_self_attr(e, "next_receive_nonce"))
+    nonce_ok = cmp_atom(_is_record_nonce, lambda e: is_self_attr(expand(fn, e) if isinstance(e, ast.Name) else e, "next_receive_nonce"))
     dec = g.call_nodes(lambda c: isinstance(c.func, ast.Attribute) and c.func.attr == "decrypt" and is_self_attr(c.func.value, "receive_box"))
     ok = len(dec) == 1 and not g.only_when(dec, nonce_ok, True) and g.when_always_raises(nonce_ok, False)
     rep.check("C06.R1", "_decrypt_record: decrypt is reachable only when the record's nonce equals next_receive_nonce; "
@@ -65,7 +65,7 @@ def r1(tree, rep):
         ok = isinstance(var, ast.Name) and not g2.precedes(reads, incs) and g2.must_pass(incs) and len(ec.args) == 2 \
             and isinstance(ec.args[1], ast.Name) and ec.args[1].id == var.id and len(local_defs(sr, var.id)) == 1 \
             and isinstance(ec.args[0], ast.Name) and ec.args[0].id in params(sr) and not local_defs(sr, ec.args[0].id)
-        w = hex_format_width(g2.stmt[reads[0]].value)
+        w = hex_format_width(g2.stmt[reads[0]].value, local_int_env(sr))
         ok = ok and w is not None and w[0] == 24 and is_self_attr(w[1], "send_nonce")
     rep.check("C06.R1", "send_record: the nonce is the 24-byte big-endian send counter read before its single increment, "
               "and encrypts the record parameter", ok, site(sr, TR), key="C06.R1:send_record:nonce")
@@ -149,21 +149,24 @@ def r3(tree, rep):
                 k_guard.append(r)
             elif is_len(r) and op in (ast.Gt, ast.LtE):
                 k_guard.append(l)
+    env = local_int_env(rd)
+    _ei = eval_int
+    eval_int_l = lambda e: _ei(e, env)
     lens = [n for n in ast.walk(rd) if isinstance(n, ast.Assign) and hex_int_of(n.value) is not None]
     ok = len(lens) == 1 and len(k_guard) == 2
     if ok:
         lvar = lens[0].targets[0].id
         src = slice_bounds(hex_int_of(lens[0].value))
         ok = src is not None and is_self_attr(src[0], "buf") and src[1] is None
-        N = eval_int(src[2]) if ok else None
+        N = eval_int_l(src[2]) if ok else None
         ok = ok and N is not None
         if ok:
-            g0 = eval_int(k_guard[0])
+            g0 = eval_int_l(k_guard[0])
             g1 = k_guard[1]
             if isinstance(g1, ast.Name):
                 g1 = resolve_local(rd, g1)        # end = N + length
             nplus = g1
-            ok = g0 == N and isinstance(g1, ast.BinOp) and isinstance(g1.op, ast.Add) and eval_int(g1.left) == N \
+            ok = g0 == N and isinstance(g1, ast.BinOp) and isinstance(g1.op, ast.Add) and eval_int_l(g1.left) == N \
                 and isinstance(g1.right, ast.Name) and g1.right.id == lvar
             # the slices: record = buf[N:N+length]; buf = buf[N+length:]
             sl = [slice_bounds(x) for x in ast.walk(rd) if isinstance(x, ast.Subscript) and is_self_attr(x.value, "buf") and slice_bounds(x)]
@@ -172,8 +175,8 @@ def r3(tree, rep):
             def is_n_plus_len(e):
                 if isinstance(e, ast.Name):
                     e = resolve_local(rd, e)
-                return isinstance(e, ast.BinOp) and isinstance(e.op, ast.Add) and eval_int(e.left) == N and isinstance(e.right, ast.Name) and e.right.id == lvar
-            ok = ok and len(rec) == 1 and len(rest) == 1 and eval_int(rec[0][1]) == N and is_n_plus_len(rec[0][2]) and is_n_plus_len(rest[0][1])
+                return isinstance(e, ast.BinOp) and isinstance(e.op, ast.Add) and eval_int_l(e.left) == N and isinstance(e.right, ast.Name) and e.right.id == lvar
+            ok = ok and len(rec) == 1 and len(rest) == 1 and eval_int_l(rec[0][1]) == N and is_n_plus_len(rec[0][2]) and is_n_plus_len(rest[0][1])
             widths.add(N)
     rep.check("C06.R3", "dataReceivedRECORDS needs N bytes, parses them big-endian, waits for N+length, consumes exactly that", ok,
               site(rd, TR), key="C06.R3:reader")
